@@ -630,7 +630,17 @@ func c02Presence(c *Ctx, ep *EmittedPkg, rid ...string) {
 				}
 				return true
 			})
-			if !skips {
+			// an arm that binds the value and then moves on to the next parameter is not a skip
+			binds := false
+			ast.Inspect(ifs.Body, func(m ast.Node) bool {
+				if call, ok := m.(*ast.CallExpr); ok {
+					if sel, ok := call.Fun.(*ast.SelectorExpr); ok && (sel.Sel.Name == "Set" || sel.Sel.Name == "Append" || sel.Sel.Name == "Mutable") {
+						binds = true
+					}
+				}
+				return true
+			})
+			if !skips || binds {
 				continue
 			}
 			n++
